@@ -206,6 +206,9 @@ def run(ck):
     P = prog("K1")
     ck.configs.add("K1")
     fdict_sites(ck, P)
+    # Z_NEED_DICT reports the announced id in strm.adler: inflate() publishes the check value on every path
+    from . import c15 as _c15
+    _c15.epilogue_all_paths(ck, P, fields=("adler",))
     deflate_set_dictionary(ck, P)
     inflate_dict(ck, P)
     from . import c06
